@@ -1525,7 +1525,7 @@ func runC17Race(c *Case, out func(string)) {
 	// that transaction keep its mutex busy. Exactly one may succeed (the other is told the transaction
 	// is closed), and afterwards the lock is free and nothing is left registered.
 	nDouble := 0
-	for i := 0; i < rounds && fail == "" && !v.svc; i++ {
+	for i := 0; i < 5*rounds && fail == "" && !v.svc; i++ {
 		hctx, hcancel := context.WithTimeout(context.Background(), 2*time.Second)
 		id, err := call(hctx, false)
 		hcancel()
